@@ -25,6 +25,7 @@ class Report:
         self.samples = []
         self.violations = []          # (key, description, replay-dict)
         self.known_hits = {}          # finding id -> count
+        self.vtags = {}
         self.assumptions = []
         self.extra = {}
         self.rule = ""
@@ -58,6 +59,7 @@ class Report:
                 self.known_hits[f["id"]] = self.known_hits.get(f["id"], 0) + 1
                 return False
         self.violations.append((desc, replay))
+        self.vtags[tuple(sorted(tags))] = self.vtags.get(tuple(sorted(tags)), 0) + 1
         return True
 
     def finish(self, level="model_checking"):
@@ -80,7 +82,10 @@ class Report:
             if self.known_hits.get(f["id"]):
                 print(f"KNOWN-FINDING: property={self.pid} {f['what']} [{f['id']}; reproduced {self.known_hits[f['id']]}x]")
         shown = 0
-        for desc, replay in self.violations:
+        if os.environ.get("VERIF_DEBUG_TAGS"):
+            for t, c in sorted(self.vtags.items(), key=lambda kv: -kv[1]):
+                print("TAGS", c, t)
+        for desc, replay in self.violations[:25]:      # at most 25 replay files per run
             blob = json.dumps({"property": self.pid, "desc": desc, "case": replay}, sort_keys=True, default=str)
             path = os.path.join(REPLAY, f"{self.pid}-{hashlib.sha256(blob.encode()).hexdigest()[:12]}.json")
             with open(path, "w") as fh:
